@@ -625,7 +625,10 @@ def main(outpath):
     comp = [("xml-node.gz", "xml.gz", gzip.compress(XML["xml-node"], 6, mtime=0)),
             ("opl-rel.bz2", "opl.bz2", bz2.compress(OPL["opl-rel"], 9)),
             ("o5m-way.gz", "o5m.gz", gzip.compress(dict(o5m_seeds())["o5m-way"], 6, mtime=0)),
-            ("pbf-way.bz2", "pbf.bz2", bz2.compress(dict(pbfs)["pbf-way"], 9))]
+            ("pbf-way.bz2", "pbf.bz2", bz2.compress(dict(pbfs)["pbf-way"], 9)),
+            # several streams / members in one file (pbzip2, `cat a.bz2 b.bz2`): the decompressors restart at each boundary
+            ("opl-rel-2streams.bz2", "opl.bz2", bz2.compress(OPL["opl-rel"][:len(OPL["opl-rel"]) // 2], 9) + bz2.compress(OPL["opl-rel"][len(OPL["opl-rel"]) // 2:], 9)),
+            ("xml-node-2members.gz", "xml.gz", gzip.compress(XML["xml-node"][:len(XML["xml-node"]) // 2], 6, mtime=0) + gzip.compress(XML["xml-node"][len(XML["xml-node"]) // 2:], 6, mtime=0))]
     for name, fmt, data in comp:
         map_flat(data, fmt.split(".")[1]).dump(out, name, fmt)
     # prefixes for the tiny-body enumeration E6 (body = every byte string up to the bound)
